@@ -134,7 +134,34 @@ class MaskAlg:
                     return self.is_width(x.right, depth)
         if isinstance(e, ast.Name):
             return self.all_defs(e.id, self.is_mask, depth)
+        if isinstance(e, ast.Call) and isinstance(e.func, ast.Name) and len(e.args) == 1 and not e.keywords and self.is_width(e.args[0], depth):
+            return self.mask_helper(e.func.id)
         return False
+
+    def mask_helper(self, fname):
+        """`f(width)` where f is a module-level function of the same file: f is evaluated (constant propagation over its table / arithmetic) for every
+        width 1..130, twice (a helper may memoise); it is a mask helper iff f(w) == 2**w - 1 for all of them.  A mismatch is remembered as the witness."""
+        fn = self.facts.functions.get((self.c.rel, fname))
+        if fn is None:
+            return False
+        key = (self.c.rel, fname)
+        if key not in MASK_HELPERS:
+            from ..elab import Elab, ElabError, ElabRaise, PyExc
+            res = True
+            try:
+                el = Elab(self.facts)
+                for rnd in range(2):
+                    for w in list(range(1, 131)) + [256, 512, 1024]:
+                        v = el.call_function(fn, None, [w], {}, rel=self.c.rel)
+                        if v != (1 << w) - 1:
+                            res = dict(helper=fname, width=w, returns=hex(v) if isinstance(v, int) else repr(v), expected=hex((1 << w) - 1))
+                            break
+                    if res is not True:
+                        break
+            except (ElabError, ElabRaise, PyExc, RecursionError) as ex:
+                res = None
+            MASK_HELPERS[key] = res
+        return MASK_HELPERS[key] is True
 
     def is_masked(self, e, depth=0, allow_next=False):
         """expression value is certainly within [0, 2^width)"""
@@ -172,6 +199,16 @@ class MaskAlg:
     def _nonneg(self, e):
         # x & y with y masked is masked for every integer x (two's complement and)
         return True
+
+
+MASK_HELPERS = {}
+
+
+def wrong_helper(rel, e):
+    for n in ast.walk(e):
+        if isinstance(n, ast.Call) and isinstance(n.func, ast.Name) and isinstance(MASK_HELPERS.get((rel, n.func.id)), dict):
+            return MASK_HELPERS[(rel, n.func.id)]
+    return None
 
 
 def has_unknown_call(e):
@@ -240,6 +277,9 @@ def check_hierarchy(ctx, facts):
                             if alg.is_masked(val, allow_next=(x.attr == 'value')):
                                 ctx.ok('C06.a', key, 'store `%s` is masked / constant 0 / copy of masked state' % norm(n))
                                 ctx.sample(dict(rule='C06.a', site=where, store=norm(n), verdict='masked'))
+                            elif wrong_helper(c.rel, val):
+                                ctx.violation('C06.a', key, 'store `%s` masks with a helper that does not return 2^width - 1 for every width' % norm(n), where,
+                                              witness=wrong_helper(c.rel, val))
                             elif has_unknown_call(val):
                                 ctx.error('C06.a', 'store `%s` in %s goes through a call the mask analysis cannot see'
                                           % (norm(n), where))
